@@ -99,6 +99,12 @@ NODE_MENUS = {
     'N3': [[[0, 0, 0], 100, 0, None],
            [[2, 2, 2], 100, 10, 1],
            [[2, 2, 2], 50, 0, 2]],
+    # N3 with the low-rank allocation uncapped and unreserved (a "system"
+    # tenant): its priority-0 instances keep rank 50 instead of the unplaced
+    # rank and so sit in the middle of the merged queue
+    'N3R': [[[0, 0, 0], 100, 0, None],
+            [[2, 2, 2], 100, 10, 1],
+            [[0, 0, 0], 50, 0, None]],
     # the two capped reservations of NS (ranks 100-10 and 50)
     'N2': [[[2, 2, 2], 100, 10, 1],
            [[2, 2, 2], 50, 0, 2]],
@@ -157,6 +163,7 @@ SLICES = {
         (2, 3, 'NS', 'IS', 3),
         (3, 2, 'NS', 'IS', 1),
         (3, 3, 'N3', 'I3', 3),
+        (3, 3, 'N3R', 'I3', 3),
     ],
     'thorough': [
         (1, 3, 'NF', 'IF', 1),
@@ -168,7 +175,9 @@ SLICES = {
         (2, 4, 'NS', 'IT', 4),
         (3, 2, 'NS', 'ID', 1),
         (3, 3, 'NS', 'IS', 3),
+        (3, 3, 'N3R', 'I3', 3),
         (3, 4, 'N3', 'I2', 4),
+        (4, 3, 'N3R', 'I2', 3),
         (4, 2, 'NS', 'IT', 1),
         (4, 3, 'N3', 'I2', 3),
         (4, 4, 'N2', 'I2', 4),
